@@ -36,6 +36,49 @@ type c01Case struct {
 	Final  []int64     `json:"final"` // size, head, tail, counter at the end of the schedule
 }
 
+// set by c01Run for scripted choosers: operations completed by thread t; offset of the list's tail word
+var (
+	c01Progress func(t int) int
+	c01TailCell int64
+)
+
+// one phase of a scripted schedule: run thread T until it has completed Ops operations, or — with
+// TailCAS — until its last step was a successful CAS on the list's tail word (a pusher that has
+// published its buffer as the new tail but has not linked it yet), or it is done.
+type c01Phase struct {
+	T       int
+	Ops     int
+	TailCAS bool
+}
+
+// c01Script runs the phases in order, then every remaining thread to completion (lowest id first).
+func c01Script(phases []c01Phase) vsChooser {
+	k := 0
+	return func(al []int, all int, last int, lastEv *vsEvent) int {
+		alive := map[int]bool{}
+		for _, a := range al {
+			alive[a] = true
+		}
+		for k < len(phases) {
+			ph := phases[k]
+			stop := !alive[ph.T] || (!ph.TailCAS && c01Progress(ph.T) >= ph.Ops)
+			if ph.TailCAS && last == ph.T && lastEv != nil && lastEv.Kind == vsKCAS && lastEv.Off == c01TailCell && lastEv.C == 1 {
+				stop = true
+			}
+			if ph.TailCAS && ph.Ops > 0 && c01Progress(ph.T) >= ph.Ops {
+				stop = true // the operation ended without a tail CAS (nothing held): do not run on
+			}
+			if stop {
+				k++
+				last = -1
+				continue
+			}
+			return ph.T
+		}
+		return al[0]
+	}
+}
+
 const c01ListOff = 8 // bufferManagerHeaderSize: the list sits where a real manager puts its first list
 
 type c01World struct {
@@ -95,6 +138,8 @@ func c01Run(id int, strat string, n, cpb int, progs [][]c01Op, mk func(nthreads 
 	res := make([][]int64, len(progs))
 	held := make([][]*bufferSlice, len(progs))
 	var threads []*vsThread
+	c01Progress = func(t int) int { return len(res[t]) }
+	c01TailCell = int64(uintptr(unsafe.Pointer(w.l.tail)) - uintptr(unsafe.Pointer(&w.mem[0])))
 	pattern := func(tid int, off int) byte { return byte(17*tid + off/stride + 1) }
 	checkPayload := func(tid int, s *bufferSlice) {
 		off := int(s.offsetInShm) - w.base
@@ -407,8 +452,11 @@ func c01Progs(r *vrand, nthr, maxOps int) [][]c01Op {
 			switch {
 			case x < 50 || j == 0:
 				progs[i] = append(progs[i], c01Op{K: "alloc"})
-			case x < 68 && !linked:
+			case x < 68:
+				// also when linked: the head of a chain is given back alone, with its has-next flag still
+				// set, while the rest is held (what a reader does slice by slice)
 				progs[i] = append(progs[i], c01Op{K: "freeOldest"})
+				linked = false
 			case x < 78 && !linked:
 				progs[i] = append(progs[i], c01Op{K: "freeNewest"})
 			case x < 90:
@@ -493,6 +541,44 @@ func TestVerif_C01(t *testing.T) {
 			o.emit(c)
 			id++
 		}
+	}
+	// directed: a pusher stalled between its tail CAS and the link store (the list is then cut after the old
+	// tail), other pushers complete behind it and allocators drain up to the cut.  The old tail is the
+	// head of a message chain that was given back alone (its header still named the next slice, which its
+	// holder keeps) — nothing of that stale link may be followed.  Variants: with/without the chain,
+	// 1..3 pushes behind the stalled one, 2..4 allocations into the cut.
+	for v := 0; v < 24; v++ {
+		chain := v%2 == 0
+		behind := 1 + (v/2)%3
+		drain := 2 + (v/6)%3
+		cpb := []int{16, 32}[v%2]
+		p0 := []c01Op{{K: "alloc"}, {K: "alloc"}, {K: "alloc"}}
+		if chain {
+			p0 = append(p0, c01Op{K: "update", Sz: 7, Link: true})
+		}
+		p0 = append(p0, c01Op{K: "freeOldest"})
+		if chain {
+			p0 = append(p0, c01Op{K: "update", Sz: 3, Link: true})
+		}
+		p1 := []c01Op{{K: "alloc"}, {K: "freeOldest"}}
+		var p2, p3 []c01Op
+		for k := 0; k < behind; k++ {
+			p2 = append(p2, c01Op{K: "alloc"})
+		}
+		for k := 0; k < behind; k++ {
+			p2 = append(p2, c01Op{K: "freeOldest"})
+		}
+		p3 = append(p3, c01Op{K: "alloc"})
+		for k := 0; k < drain; k++ {
+			p3 = append(p3, c01Op{K: "alloc"})
+		}
+		nslots := 3 + 1 + behind + 1 + 1 // three for t0, one for t1, `behind` for t2, one for t3, the tail
+		phases := []c01Phase{{T: 0, Ops: 3}, {T: 1, Ops: 1}, {T: 2, Ops: behind}, {T: 0, Ops: len(p0)}, {T: 3, Ops: 1},
+			{T: 1, Ops: 2, TailCAS: true}, {T: 2, Ops: len(p2)}, {T: 3, Ops: len(p3)}}
+		c := c01Run(id, fmt.Sprintf("directed-stalled-pusher(chain=%v,behind=%d,drain=%d)", chain, behind, drain), nslots, cpb,
+			[][]c01Op{p0, p1, p2, p3}, func(int) vsChooser { return c01Script(phases) }, nil)
+		o.emit(c)
+		id++
 	}
 	// systematic single pre-emption for a fixed small configuration (3 slots, alloc/free/alloc vs alloc/free)
 	progs := [][]c01Op{{{K: "alloc"}, {K: "freeOldest"}, {K: "alloc"}, {K: "alloc"}}, {{K: "alloc"}, {K: "alloc"}, {K: "freeNewest"}, {K: "freeOldest"}}}
